@@ -2,6 +2,8 @@
 hole/parent pairing, polygon assembly, prev_in_result table)."""
 from rules import booltables as bt, cerules, oprules, walkrules, orderrules
 
+from rules import looprules
+
 LEVEL = 'other'
 EXPLANATION = __doc__
 
@@ -20,3 +22,4 @@ def run(ctx, rep):
     walkrules.check_vertex_cycle(ctx, rep)
     walkrules.check_mark(ctx, rep)
     orderrules.check_order_events(ctx, rep, rule='T-walk-order')
+    looprules.check_loops(ctx, rep)
